@@ -31,7 +31,7 @@ RULE = (
 )
 ASSUMPTIONS = [
     "callbacks are pure apart from the injected fault",
-    "the neighbor-cache memo and Vertex._CACHE_STATS may legitimately change on a read (only the memo's presence is compared)",
+    "private bookkeeping attributes other than the structural ones (_links, _vertices, _universes, _uid, _laws, _applies_to and the law flags) - the neighbor-cache memo, whatever it is called - and Vertex._CACHE_STATS may legitimately change on a read: only their presence is compared",
     "the options dict given to render_to_plantuml_src is the caller's, not part of the graph (the library compiles its show_attrs entry in place)",
 ]
 LEVEL_TEXT = (
@@ -61,6 +61,9 @@ def strategy(tier):
     )
 
 
+STRUCTURAL = {"_links", "_vertices", "_universes", "_uid", "_laws", "_applies_to", "_edge_whitelist", "_mixed_links", "_cycles", "_multipath", "_multiverse"}
+
+
 class Boom(Exception):
     """The injected fault."""
 
@@ -79,7 +82,15 @@ def deep_snapshot(objs):
             return sorted(repr(val(y, d + 1)) for y in x)
         return repr(x)
 
-    return [sorted((k, "<memo>" if k == "_Vertex__qa_nb_cache" else val(v)) for k, v in vars(o).items()) for o in objs]
+    def entry(k, v):
+        # values are compared for every public attribute and for the private attributes that hold the graph's
+        # structure; of any OTHER private attribute (memos, counters: the library's own bookkeeping, whatever it is
+        # called) only the presence is compared - a read may update it, but may not add or remove it
+        if k.startswith("_") and k not in STRUCTURAL:
+            return (k, "<private>")
+        return (k, val(v))
+
+    return [sorted(entry(k, v) for k, v in vars(o).items()) for o in objs]
 
 
 def plain(x):
